@@ -4,7 +4,7 @@ use std::sync::Arc;
 
 use super::*;
 use crate::array::DataChunk;
-use crate::catalog::{ColumnRefId, TableRefId};
+use crate::catalog::{ColumnRefId, TableRefId, find_sort_key_id};
 use crate::storage::{
     KeyRange, ScanOptions, Storage, StorageColumnRef, Table, Transaction, TxnIterator,
 };
@@ -36,12 +36,24 @@ impl<S: Storage> TableScanExecutor<S> {
             col_idx.push(StorageColumnRef::RowHandler);
         }
 
+        // The optimizer treats a scan of the disk engine that includes the primary key as
+        // ordered by that key, which only holds across row-sets for a sorted (merging) scan.
+        let is_sorted = self.storage.as_disk().is_some() && {
+            let sort_keys = find_sort_key_id(&table.columns()?);
+            !sort_keys.is_empty()
+                && sort_keys
+                    .iter()
+                    .all(|key| col_idx.contains(&StorageColumnRef::Idx(*key as u32)))
+        };
+
         let txn = table.read().await?;
 
         let mut it = txn
             .scan(
                 &col_idx,
-                ScanOptions::default().with_filter_opt(self.filter),
+                ScanOptions::default()
+                    .with_sorted(is_sorted)
+                    .with_filter_opt(self.filter),
             )
             .await?;
 
